@@ -1,10 +1,35 @@
-(* Properties_C09.v — C09: IsFungible<A,B> (partial: reflexivity, the documented
-   pairs and finding K3 are proved here; symmetry and "fungible implies the same
-   bytes" are decided on the implementation by the full pairwise matrix and the
-   cross-type decode/re-encode oracle, see DESIGN.md). Statements only; proofs in
-   FungibleProps.v. *)
-From Nop Require Import Spec Sim Fungible FungibleProps.
+(* Properties_C09.v — C09: IsFungible<A,B> implies wire compatibility.  Proved here
+   on the transcription of is_fungible.h: reflexivity, the documented pairs, the main
+   theorem C09_wire (fungible schemas give the same bytes and the same size, and what
+   A wrote reads back as B, for every value both can hold — outside the K3 corner),
+   and K3 itself.  Symmetry of the trait is decided on the implementation by the
+   full pairwise matrix (DESIGN.md).  Statements only; proofs in FungibleProps.v and
+   FungibleWire.v. *)
+From Nop Require Import Spec Sim EncSpec ScalarRT DecSpec Fungible FungibleProps FungibleWire.
 Local Open Scope N_scope.
+
+(* [k3free t]: no NOP_VALUE wrapper of an integral type sits directly under a sequence
+   constructor of t (that is the K3 corner, refuted below) *)
+Theorem C09_wire : forall a b v,
+  fungible a b = true -> k3free a = true -> k3free b = true ->
+  has_type a v = true -> has_type b v = true ->
+  spec_enc a v = spec_enc b v /\ tsize a v = tsize b v /\
+  lenc a v = Ok tt (spec_enc b v) /\
+  (wf b = true -> forall rest, ldec b (spec_enc a v ++ rest) = Ok v rest).
+Proof.
+  intros a b v Hf Ka Kb Ha Hb. destruct (fungible_wire a b v Hf Ka Kb Ha Hb) as [E1 E2].
+  split; [exact E1|]. split; [exact E2|]. split.
+  - rewrite <- E1. apply lenc_spec, Ha.
+  - intros Hw rest. rewrite E1. apply dec_from_payload; [exact Hb|apply decp_payload; assumption].
+Qed.
+Print Assumptions C09_wire.
+
+Example C09_wire_nonvacuous :
+  let a := TSeq CVec (TTuple KPair [TScalar 0 (SInt I32); TStr 1]) in
+  let b := TSeq (CArr false 2) (TWrap 5 (TTuple KTuple [TScalar 0 (SInt I32); TWrap 6 (TStr 1)])) in
+  let v := VSeq [VSeq [VInt 300; VSeq [VInt 104]]; VSeq [VInt (-1); VSeq []]] in
+  fungible a b = true /\ k3free a = true /\ k3free b = true /\ has_type a v = true /\ has_type b v = true /\ wf b = true.
+Proof. vm_compute. repeat split; reflexivity. Qed.
 
 Theorem C09_reflexive : forall t, fungible t t = true.
 Proof. exact fungible_refl. Qed.
